@@ -131,22 +131,35 @@ def closure_snapshots(outs, name):
     return []
 
 
+def searched_list_is(find_event, list_call):
+    """the iterator handed to `find` walks the list produced by `list_call` on this path (not a stored copy of an earlier one)"""
+    recv = find_event[2][0]
+    pre = dict(find_event[6]).get(0) if len(find_event) > 6 else None
+    for t in (pre, recv):
+        if t is not None and any(s_ == list_call for s_ in subterms(t)):
+            return True
+    return False
+
+
 def r3_selection(ctx):
     rule = 'C14.R3-selection'
     facts = ctx.facts
     # coordinates
     name, outs = game_outcomes(ctx, 'apply_chess_move_by_from_to_coordinates')
-    ok = False
+    oks = []
     for o in outs:
         if o.kind == 'return' and is_ok_result(o.value):
             ap = [e for e in o.events if e[0] == 'call' and e[1] == AP]
             gen = [e for e in o.events if e[0] == 'call' and e[1] == GEN]
             fnd = [e for e in o.events if e[0] == 'call' and (e[1].endswith('::find') and 'Iterator' in e[1])]
+            ok1 = False
             if ap and gen and fnd:
-                ok = len(gen) == 1 and len(fnd) == 1 and o.events.index(gen[0]) < o.events.index(fnd[0]) and \
+                ok1 = len(gen) == 1 and len(fnd) == 1 and o.events.index(gen[0]) < o.events.index(fnd[0]) and \
                     gen[0][2][1] == ('ref', ('fld', ('der', ('p', 1)), 'board')) and \
                     'turn' in show(gen[0][2][2]) and any(s == ('call', fnd[0][1], fnd[0][2], fnd[0][3]) for s in subterms(ap[0][2][0])) and \
-                    strip(dict(o.value[4])['0']) == strip(ap[0][2][0])
+                    strip(dict(o.value[4])['0']) == strip(ap[0][2][0]) and searched_list_is(fnd[0], ('call', GEN, gen[0][2], gen[0][3]))
+            oks.append(ok1)
+    ok = bool(oks) and all(oks)
     ctx.ob(rule, name, 'plays and returns the first generated move of the side to move matching the predicate', ok,
            expected='generate_moves(board, board.turn()).iter().find(pred)')
     # predicate as a truth function of the two atoms (move.from == typed from), (move.to == typed to)
@@ -161,16 +174,20 @@ def r3_selection(ctx):
     ctx.ob(rule, name, 'predicate: from == typed from && to == typed to', pred_ok, found=found, expected='m.from_square() == from && m.to_square() == to (exact equality on both squares)')
     # notation
     name, outs = game_outcomes(ctx, 'apply_chess_move_from_raw_algebraic_notation')
-    ok = False
+    oks = []
     for o in outs:
         if o.kind == 'return' and is_ok_result(o.value):
             en = [e for e in o.events if e[0] == 'call' and e[1] == ENUM]
             fnd = [e for e in o.events if e[0] == 'call' and (e[1].endswith('::find') and 'Iterator' in e[1])]
             ap = [e for e in o.events if e[0] == 'call' and e[1] == AP]
+            ok1 = False
             if en and fnd and ap:
-                ok = len(en) == 1 and len(fnd) == 1 and o.events.index(en[0]) < o.events.index(fnd[0]) and \
+                ok1 = len(en) == 1 and len(fnd) == 1 and o.events.index(en[0]) < o.events.index(fnd[0]) and \
                     en[0][2][0] == ('ref', ('fld', ('der', ('p', 1)), 'board')) and \
-                    'turn' in show(en[0][2][1]) and any(s[0] == 'call' and (s[1].endswith('::find') and 'Iterator' in s[1]) for s in subterms(ap[0][2][0]))
+                    'turn' in show(en[0][2][1]) and any(s[0] == 'call' and (s[1].endswith('::find') and 'Iterator' in s[1]) for s in subterms(ap[0][2][0])) and \
+                    searched_list_is(fnd[0], ('call', ENUM, en[0][2], en[0][3]))
+            oks.append(ok1)
+    ok = bool(oks) and all(oks)        # every accepting path: a remembered list (of another moment, possibly another side to move) is not the list of now
     ctx.ob(rule, name, 'plays the first (move, label) pair of the side to move whose label equals the input', ok, expected='enumerate(..).iter().find(|m| m.1 == input).0')
     pred_ok, found = False, None
     fc = find_closures(outs)
